@@ -665,6 +665,10 @@ func (w *Walker) callInternal(call *ast.CallExpr, fn *FuncInfo, st *State, nres 
 				ns.Events["fn:"+fn.Name+"="+cl.Ret] = true
 			}
 			ns.Events["fn:"+fn.Name] = true
+			ns.logEv("fn:" + fn.Name)
+			if cl.Events["if:Timer.Reset"] {
+				ns.logEv("if:Timer.Reset")
+			}
 			var ts []*Term
 			rcs := strings.Split(cl.Ret, ",")
 			for r := 0; r < nres; r++ {
